@@ -24,4 +24,6 @@ def check(tree, rep, tier='quick', seed=0):
     R.k11_input_gate(core, rep)
     R.k16_determinism(core, rep, extra_modules=forms)
     R.k18_cli_store_identity(core, rep)
+    from .c17 import shared_rule
+    shared_rule(an.cat, rep, rule='R17.7')
     rep.floor('core rule obligations', sum(v[0] for k, v in rep.rules.items() if k.startswith('K')), 100)
